@@ -5,6 +5,7 @@ package secp256k1
 
 import (
 	"bytes"
+	"strings"
 	"math/big"
 	"math/rand"
 	"testing"
@@ -252,22 +253,32 @@ func vRunCase9(t *testing.T, c vCase) (msg string) {
 			case 13:
 				s.S = t.S
 			}
+			// c.Op: the property on whose behalf the history is replayed, c.A: the observers it is about (empty: all)
+			obs := func(name string) bool { return c.A == "" || strings.Contains(","+c.A+",", ","+name+",") }
 			f := &Scalar{S: s.S}
 			want := new(big.Int).SetBytes(f.Encode())
-			bits := s.Bits()
-			for i := 0; i < 256; i++ {
-				if uint(bits[i]) != want.Bit(i) {
-					return "after mutator " + itoa(c.N) + " Bits()[" + itoa(i) + "] does not describe the current value " + want.Text(16)
+			if obs("bits") {
+				bits := s.Bits()
+				for i := 0; i < 256; i++ {
+					if uint(bits[i]) != want.Bit(i) {
+						return "after mutator " + itoa(c.N) + " Bits()[" + itoa(i) + "] does not describe the current value " + want.Text(16)
+					}
 				}
 			}
-			if !bytes.Equal(s.Encode(), f.Encode()) || s.IsZero() != f.IsZero() || s.Equal(u) != f.Equal(u) || s.LessOrEqual(u) != f.LessOrEqual(u) || s.IsOne() != f.IsOne() || u.LessOrEqual(s) != u.LessOrEqual(f) || s.Hex() != f.Hex() {
-				return "after mutator " + itoa(c.N) + " an observer disagrees with a fresh scalar holding the same limbs"
+			if obs("enc") && (!bytes.Equal(s.Encode(), f.Encode()) || s.Hex() != f.Hex()) {
+				return "after mutator " + itoa(c.N) + " Encode/Hex disagree with a fresh scalar holding the same limbs"
 			}
-			g := vElementOf(vG(), big.NewInt(3))
-			if got, ok := vPointOf(g.Multiply(s)); !ok || !vSame(got, vMulPt(want, vG())) {
-				return "after mutator " + itoa(c.N) + " Multiply uses a stale scalar value"
+			if (obs("isz") && s.IsZero() != f.IsZero()) || (obs("isone") && s.IsOne() != f.IsOne()) || (obs("eq") && s.Equal(u) != f.Equal(u)) ||
+				(obs("le") && (s.LessOrEqual(u) != f.LessOrEqual(u) || u.LessOrEqual(s) != u.LessOrEqual(f))) {
+				return "after mutator " + itoa(c.N) + " a predicate disagrees with a fresh scalar holding the same limbs"
 			}
-			if m := vSanity(tt, "scalar"); m != "" {
+			if c.A == "" || c.Op == "C01" {
+				g := vElementOf(vG(), big.NewInt(3))
+				if got, ok := vPointOf(g.Multiply(s)); !ok || !vSame(got, vMulPt(want, vG())) {
+					return "after mutator " + itoa(c.N) + " Multiply uses a stale scalar value"
+				}
+			}
+			if m := vSanity(tt, c.Op); m != "" {
 				return "after scalar mutator " + itoa(c.N) + ": " + m
 			}
 		}
@@ -302,11 +313,13 @@ func vRunCase9(t *testing.T, c vCase) (msg string) {
 		case 9:
 			_ = e.Decode([]byte{0})
 		}
+		obsE := func(name string) bool { return c.A == "" || strings.Contains(","+c.A+",", ","+name+",") }
 		f := &Element{x: e.x, y: e.y, z: e.z}
-		if !bytes.Equal(e.Encode(), f.Encode()) || !bytes.Equal(e.EncodeUncompressed(), f.EncodeUncompressed()) || e.IsIdentity() != f.IsIdentity() || e.Equal(q) != f.Equal(q) {
+		if (obsE("enc") && !bytes.Equal(e.Encode(), f.Encode())) || (obsE("unc") && !bytes.Equal(e.EncodeUncompressed(), f.EncodeUncompressed())) ||
+			(obsE("isid") && e.IsIdentity() != f.IsIdentity()) || (obsE("eq") && e.Equal(q) != f.Equal(q)) {
 			return "after mutator " + itoa(c.N) + " an observer disagrees with a fresh element holding the same coordinates"
 		}
-		if m := vSanity(t, "element"); m != "" {
+		if m := vSanity(t, c.Op); m != "" {
 			return "after element mutator " + itoa(c.N) + ": " + m
 		}
 	default:
